@@ -37,3 +37,32 @@ Proof.
   rewrite Hn in Hw. unfold names in *. apply in_map_iff in Hw. destruct Hw as [d [Ed Hd]].
   apply in_map_iff. exists d. split; [exact Ed | apply Hi; exact Hd].
 Qed.
+
+(* Rejection is a property of the graph, not of the file order: the pre-pass accepts exactly the programs
+   that have a rank function, and having one is invariant under reordering the commands. *)
+From Coq Require Import Permutation.
+From MP Require Import Proofs.SchedTop.
+
+Lemma wf_dag_perm P P' rank : Permutation P P' -> wf_dag P rank -> wf_dag P' rank.
+Proof.
+  intros Hp [ND R K]. assert (Hn : Permutation (names P) (names P')) by (apply Permutation_map; exact Hp).
+  constructor.
+  - eapply Permutation_NoDup; eauto.
+  - intros c d Hc Hd. eapply Permutation_in; [exact Hn|]. eapply R; eauto. eapply Permutation_in; [apply Permutation_sym; exact Hp | exact Hc].
+  - intros c d Hc Hd. eapply K; eauto. eapply Permutation_in; [apply Permutation_sym; exact Hp | exact Hc].
+Qed.
+
+Theorem accepted_iff_ranked P : NoDup (names P) -> first_missing P P = None ->
+  (find_cycle P = None <-> exists rank, wf_dag P rank).
+Proof.
+  intros ND FM. split.
+  - intros H. exists (round_of (length P) P). apply prepass_rank; auto. apply find_cycle_None. exact H.
+  - intros [rank W]. eapply acyclic_accepted. exact W.
+Qed.
+
+Theorem rejection_order_irrelevant P P' : Permutation P P' -> NoDup (names P) -> first_missing P P = None ->
+  find_cycle P = None -> find_cycle P' = None.
+Proof.
+  intros Hp ND FM H. apply (accepted_iff_ranked P ND FM) in H. destruct H as [rank W].
+  eapply acyclic_accepted. eapply wf_dag_perm; eauto.
+Qed.
